@@ -37,6 +37,7 @@ def scratch_base():
 
 
 _WORKER_ROOT = None
+_RUN_COUNTER = 0
 
 
 def worker_root():
@@ -238,7 +239,12 @@ class Sim(object):
     """One simulated run: scratch directory, seams, event log, fault plan."""
 
     def __init__(self, label='run', clock=None, listing_seed=None, prompts=None):
-        self.root = os.path.join(worker_root(), label)
+        # one fresh directory per run: no two runs of a worker share a path, so process-level state keyed by path
+        # (a cache in the code under test) cannot leak from one run into the next and break replay; same-path history
+        # is put INSIDE a scenario instead (the 'prelude' epoch). Fixed width keeps pickled paths the same length.
+        global _RUN_COUNTER
+        _RUN_COUNTER += 1
+        self.root = os.path.join(worker_root(), '%s-%07d' % (label[:3].ljust(3, '_'), _RUN_COUNTER))
         shutil.rmtree(self.root, ignore_errors=True)
         os.makedirs(self.root)
         self.events = []          # the event log (digested for the determinism test)
